@@ -174,6 +174,22 @@ CLAIMED.update({
   },
 })
 
+CLAIMED.update({
+  "C19": {
+    "text": "The real `tt convert` (through the real argparse parser) runs with readers, writers, XML parsing and file I/O replaced "
+            "by recording stubs and with every combination of --itype/--otype (8 values, mixed case), file extensions (8), filter "
+            "lists (4), inline configuration (3) and configuration file (present/absent) chosen by the solver; the recorded "
+            "stage sequence with the parsed configuration objects is compared with a reference composition. Configuration "
+            "decoders: lcd.safe_area over every integer in [-1000,1000] (symbolic) and menus of valid/boundary/invalid values "
+            "for the other keys: accepted set == documented set.",
+    "note": "Determinism across hash seeds, independence from earlier conversions and from log/progress settings are NOT claimed: "
+            "they are relations over operating-system processes that cannot be encoded as solver queries over values (stated in "
+            "DESIGN.md); byte identity follows from the composition only if the stages are deterministic.",
+    "technique": "bounded exhaustive exploration of the dispatcher with stubbed I/O + symbolic integer for the numeric decoder",
+    "design": "DESIGN.md §3 C19",
+  },
+})
+
 NOT_YET = {
 }
 
